@@ -611,6 +611,10 @@ def _bounds_consumed(ctx, f, fn, root, fields_of, depth=0):
         whole = GF.f_or(fms) if len(fms) > 1 else fms[0]
         if whole == GF.T or GF.equivalent(whole, GF.T)[0]:
             return True, f"{len(sites)} read(s), together unconditional"
+        # the paths on which the function refuses the input need no bounds: reads and refusals together cover every case
+        errs = [RJ.site_formula(fn, r_, ps_) for r_, ps_ in A.find(fn.block, "Expr::Return") if r_.get("expr") is not None and A.render(r_["expr"]).startswith("Err(")]
+        if errs and GF.equivalent(GF.f_or(fms + errs), GF.T)[0]:
+            return True, f"{len(sites)} read(s), unconditional on every path that does not refuse the input"
     # handed on whole: `Expansion { attrs: &root, .. }` + `.generate_bounds()`
     if depth < 2 and "." not in root:
         for lit, _ in A.find(fn.block, "Expr::Struct"):
